@@ -5,13 +5,21 @@
     behaviour of the acceptor model/M5lb.v: [M5lb.reject_at tr = None].
 
     Monitor [c01_ok]: the property on the OBSERVED trace alone (no model
-    state): a client request is handed to a target (KClaim) only if every
+    state): a client request is handed to a target (KClaim) only if EITHER every
     target created together with it (same KLbNew) has had a successful probe
-    result applied before (or was made healthy by a restore: KStateSet
-    adding->healthy), its balancer's wait did not fail, a service slot is given
-    only to a balancer whose wait succeeded, and a balancer whose wait fails has
-    not served any request.  (The harness reports a probe as successful only for
-    a 2xx answer within the probe timeout.) *)
+    result applied before and the deploy's wait on its balancer has succeeded
+    (and not failed), OR its balancer was put into service by an earlier
+    KRestored event (a restart: "restored
+    targets are presumed healthy until their first probe").  A KRestored event
+    may name only balancers that were created by a non-command actor, never
+    waited on by a deploy, and whose targets were ALL made healthy by the
+    restore (KStateSet adding->healthy) before; a restored balancer is never the
+    subject of a deploy's wait.  A service slot is given (KSlot) only to a
+    balancer whose wait succeeded, and a balancer whose wait fails has not
+    served any request.  (The harness reports a probe as successful only for a
+    2xx answer within the probe timeout.  That a restored target leaves the
+    rotation after a failed probe like any other is the business of the
+    monitors of corr/C09corr.v, which do not distinguish restored balancers.) *)
 From KP Require Import model.Base model.Trace model.M5lb.
 Local Open Scope nat_scope.
 
@@ -19,13 +27,15 @@ Record mon1 := mkM1 {
   m_tlb : list (nat * nat);          (* target -> balancer (from KLbNew) *)
   m_lbs : list (nat * list nat);     (* balancer -> targets *)
   m_pok : list nat;                  (* targets with a successful probe result *)
-  m_lic : list nat;                  (* targets made healthy by a restore *)
+  m_lic : list nat;                  (* targets made healthy by a restore (adding->healthy without a probe) *)
   m_wok : list nat;                  (* balancers whose wait succeeded *)
   m_failed : list nat;               (* balancers whose wait failed *)
-  m_claimed : list nat               (* targets that were handed a request *)
+  m_claimed : list nat;              (* targets that were handed a request *)
+  m_cmd : list nat;                  (* balancers created by a command *)
+  m_rest : list nat                  (* balancers put into service by a KRestored event *)
 }.
 
-Definition m1_init : mon1 := mkM1 [] [] [] [] [] [] [].
+Definition m1_init : mon1 := mkM1 [] [] [] [] [] [] [] [] [].
 
 Fixpoint add_tlb (l : list (nat * nat)) (lb : nat) (ts : list nat) : list (nat * nat) :=
   match ts with
@@ -33,28 +43,47 @@ Fixpoint add_tlb (l : list (nat * nat)) (lb : nat) (ts : list nat) : list (nat *
   | t :: r => add_tlb (nset l t lb) lb r
   end.
 
+Definition is_cmd (a : actor) : bool := match a with ACmd _ => true | _ => false end.
+
+(** may a KRestored event name this balancer? *)
+Definition m1_restorable (m : mon1) (lb : nat) : bool :=
+  match nget (m_lbs m) lb with
+  | Some ts =>
+    negb (nmem lb (m_cmd m)) && negb (nmem lb (m_wok m)) && negb (nmem lb (m_failed m))
+    && forallb (fun t => nmem t (m_lic m)) ts
+  | None => false
+  end.
+
 Definition c01_step (m : mon1) (e : event) : option mon1 :=
   match e_k e with
   | KLbNew lb ts =>
-    Some (mkM1 (add_tlb (m_tlb m) lb ts) (nset (m_lbs m) lb ts) (m_pok m) (m_lic m) (m_wok m) (m_failed m) (m_claimed m))
+    Some (mkM1 (add_tlb (m_tlb m) lb ts) (nset (m_lbs m) lb ts) (m_pok m) (m_lic m) (m_wok m) (m_failed m) (m_claimed m)
+               (if is_cmd (e_by e) then lb :: m_cmd m else m_cmd m) (m_rest m))
   | KProbeApply t true _ _ =>
-    Some (mkM1 (m_tlb m) (m_lbs m) (t :: m_pok m) (m_lic m) (m_wok m) (m_failed m) (m_claimed m))
+    Some (mkM1 (m_tlb m) (m_lbs m) (t :: m_pok m) (m_lic m) (m_wok m) (m_failed m) (m_claimed m) (m_cmd m) (m_rest m))
   | KStateSet t TAdding THealthy =>
-    Some (mkM1 (m_tlb m) (m_lbs m) (m_pok m) (t :: m_lic m) (m_wok m) (m_failed m) (m_claimed m))
+    Some (mkM1 (m_tlb m) (m_lbs m) (m_pok m) (t :: m_lic m) (m_wok m) (m_failed m) (m_claimed m) (m_cmd m) (m_rest m))
+  | KRestored _ act roll =>
+    let lbs := opt_list act ++ opt_list roll in
+    if negb (is_cmd (e_by e)) && forallb (m1_restorable m) lbs
+    then Some (mkM1 (m_tlb m) (m_lbs m) (m_pok m) (m_lic m) (m_wok m) (m_failed m) (m_claimed m) (m_cmd m) (lbs ++ m_rest m))
+    else None
   | KDeployWaited lb true =>
-    Some (mkM1 (m_tlb m) (m_lbs m) (m_pok m) (m_lic m) (lb :: m_wok m) (m_failed m) (m_claimed m))
+    if nmem lb (m_rest m) then None
+    else Some (mkM1 (m_tlb m) (m_lbs m) (m_pok m) (m_lic m) (lb :: m_wok m) (m_failed m) (m_claimed m) (m_cmd m) (m_rest m))
   | KDeployWaited lb false =>
     let ts := match nget (m_lbs m) lb with Some ts => ts | None => [] end in
-    if existsb (fun t => nmem t (m_claimed m)) ts then None
-    else Some (mkM1 (m_tlb m) (m_lbs m) (m_pok m) (m_lic m) (m_wok m) (lb :: m_failed m) (m_claimed m))
+    if nmem lb (m_rest m) || existsb (fun t => nmem t (m_claimed m)) ts then None
+    else Some (mkM1 (m_tlb m) (m_lbs m) (m_pok m) (m_lic m) (m_wok m) (lb :: m_failed m) (m_claimed m) (m_cmd m) (m_rest m))
   | KSlot _ _ lb _ => if nmem lb (m_wok m) then Some m else None
   | KClaim t _ =>
     match nget (m_tlb m) t with
     | Some lb =>
       match nget (m_lbs m) lb with
       | Some ts =>
-        if forallb (fun t' => nmem t' (m_pok m) || nmem t' (m_lic m)) ts && negb (nmem lb (m_failed m))
-        then Some (mkM1 (m_tlb m) (m_lbs m) (m_pok m) (m_lic m) (m_wok m) (m_failed m) (t :: m_claimed m))
+        if nmem lb (m_rest m)
+           || (forallb (fun t' => nmem t' (m_pok m)) ts && nmem lb (m_wok m) && negb (nmem lb (m_failed m)))
+        then Some (mkM1 (m_tlb m) (m_lbs m) (m_pok m) (m_lic m) (m_wok m) (m_failed m) (t :: m_claimed m) (m_cmd m) (m_rest m))
         else None
       | None => None
       end
